@@ -13,7 +13,7 @@ func hOrder(q *Query) ([hMaxH]Entity, int) {
 	var ord [hMaxH]Entity
 	n := 0
 	for q.Next() {
-		vAssume(n < hMaxH)
+		vBound(n < hMaxH, "visited<=10")
 		ord[n] = q.Entity()
 		n++
 	}
